@@ -59,7 +59,7 @@ theorem restoreContext_ext (m' : M) (dv : List Slot) (vs0 : List Slot) (dc : Lis
       m''.loadDepth = ld0 ∧ m''.restrictDestruct = rd0 ∧
       m''.catchValue = m'.catchValue ∧ m''.errState = m'.errState ∧ m''.installed = m'.installed ∧ m''.lastVerb = vb0 := by
   cases m' with
-  | mk cg r vs cs ctxs catchValue lastCatch errState loadDepth restrictDestruct inError inMudlibHandler ran installed fault shape out maxDepth staleCatch lastVerb masterName simulName savedMasterName savedSimulName efunCtx hbCur hbOff =>
+  | mk cg r vs cs ctxs catchValue lastCatch errState loadDepth restrictDestruct inError inMudlibHandler ran installed fault shape out maxDepth staleCatch lastVerb masterName simulName savedMasterName savedSimulName efunCtx numVarargs hbCur hbOff =>
   simp only at hv hc
   subst hv hc
   rcases List.eq_nil_or_concat dc with hnil | ⟨dc', f, hcat⟩
@@ -69,7 +69,7 @@ theorem restoreContext_ext (m' : M) (dv : List Slot) (vs0 : List Slot) (dc : Lis
         errState := errState, loadDepth := ld0, restrictDestruct := rd0, inError := inError,
         inMudlibHandler := inMudlibHandler, ran := ran, installed := installed, fault := fault, shape := shape,
         out := out, maxDepth := maxDepth, staleCatch := staleCatch, lastVerb := vb0, masterName := masterName, simulName := simulName,
-        savedMasterName := savedMasterName, savedSimulName := savedSimulName, efunCtx := efunCtx, hbCur := hbCur, hbOff := hbOff } vs0 rfl
+        savedMasterName := savedMasterName, savedSimulName := savedSimulName, efunCtx := efunCtx, numVarargs := 0, hbCur := hbCur, hbOff := hbOff } vs0 rfl
     refine ⟨m3, ?_, hv3, ?_, ?_, ?_, hr3, ?_, ?_, ?_, ?_, ?_, ?_, ?_, ?_⟩
     · have hlt : ¬ (dv.length + vs0.length < vs0.length) := by omega
       have e : dv.length + vs0.length - vs0.length = dv.length := by omega
@@ -82,7 +82,7 @@ theorem restoreContext_ext (m' : M) (dv : List Slot) (vs0 : List Slot) (dc : Lis
         errState := errState, loadDepth := ld0, restrictDestruct := rd0, inError := inError,
         inMudlibHandler := inMudlibHandler, ran := ran, installed := installed, fault := fault, shape := shape,
         out := out, maxDepth := maxDepth, staleCatch := staleCatch, lastVerb := vb0, masterName := masterName, simulName := simulName,
-        savedMasterName := savedMasterName, savedSimulName := savedSimulName, efunCtx := efunCtx, hbCur := hbCur, hbOff := hbOff } vs0 rfl
+        savedMasterName := savedMasterName, savedSimulName := savedSimulName, efunCtx := efunCtx, numVarargs := 0, hbCur := hbCur, hbOff := hbOff } vs0 rfl
     refine ⟨m3, ?_, hv3, ?_, ?_, ?_, hr3, ?_, ?_, ?_, ?_, ?_, ?_, ?_, ?_⟩
     · have hlen : cs0.length < (dc' ++ [f] ++ cs0).length := by simp; omega
       have hd := drop_to_first dc' f cs0
